@@ -146,10 +146,10 @@ def rules(rep, db, only):
                         lo = Poly.atom((b + ".min_", j)) + sgn * Poly.atom((v, j))
                         hi = Poly.atom((b + ".max_", j)) - sgn * Poly.atom((v, j))
                         if got[j] != (lo, hi):
-                            def nm(a):
+                            def atom_name(a):
                                 return ("%s(..)" % a[0]) if a[0] in ("div", "mod") else "%s[%s]" % (a[0], ",".join(str(x) for x in a[1:]))
                             bad = "%scoordinate %d of the result is [%s, %s), expected [%s, %s)" % (
-                                ("on the path where " + "; ".join(cond[-2:]) + ": ") if cond else "", j, got[j][0].show(nm), got[j][1].show(nm), lo.show(nm), hi.show(nm))
+                                ("on the path where " + "; ".join(cond[-2:]) + ": ") if cond else "", j, got[j][0].show(atom_name), got[j][1].show(atom_name), lo.show(atom_name), hi.show(atom_name))
                             break
                     if bad:
                         break
